@@ -75,6 +75,7 @@ class TDict(dict):
         super().__init__(*a, **k)
         self.uses = 0
         self.rewritten = set()
+        self.clobbered = {}      # key -> number of times a DIFFERENT value replaced the one stored under it
 
     def wrote(self, key):
         if self.uses:
@@ -94,7 +95,7 @@ def _copy_val(v, memo):
             return memo[id(v)]
         n = TDict() if isinstance(v, TDict) else {}
         if isinstance(v, TDict):
-            n.uses, n.rewritten = v.uses, set(v.rewritten)
+            n.uses, n.rewritten, n.clobbered = v.uses, set(v.rewritten), dict(v.clobbered)
         memo[id(v)] = n
         for k, x in v.items():
             n[k] = _copy_val(x, memo)
@@ -106,8 +107,9 @@ def _copy_val(v, memo):
 
 class Emit:
     """one hand-over of generated source text to exec"""
-    def __init__(self, src, raw, globs, call, func, choices, plan, reuse=1, rewritten=()):
+    def __init__(self, src, raw, globs, call, func, choices, plan, reuse=1, rewritten=(), clobbered=None):
         self.src, self.raw, self.globals = src, raw, globs
+        self.clobbered = dict(clobbered or {})                 # globals keys under which different objects were stored
         self.reuse, self.rewritten = reuse, tuple(rewritten)   # n-th exec with this very mapping / keys re-assigned since
         self.call, self.func = call, func          # the exec call node, the FunctionDef it sits in
         self.choices, self.plan = choices, plan    # fork decisions / loop plan that produced it
@@ -130,10 +132,12 @@ class _State:
         self.status = 'ok'
         self.retval = None
         self.choices = []
+        self.attrs = {}          # (symbol key, attribute) -> value stored by `obj.attr = value`
 
     def clone(self):
         s = _State()
         memo = {}
+        s.attrs = dict(self.attrs)
         s.frames = [_copy_val(f, memo) for f in self.frames]
         s.nonlocals = [set(x) for x in self.nonlocals]
         s.emits = list(self.emits)
@@ -219,6 +223,7 @@ class SrcBuilder:
         self.repr_models = {}             # Sym key -> modelled repr() string
         self.placeholders = {}            # Sym key -> placeholder text
         self.symloops = {}                # id(loop node) -> node, loops iterated over a symbolic container
+        self.loop_container = {}          # id(loop node) -> key of the symbolic container it iterates
         self.plan = {}
         self.npaths = 0
         self._rel_cache = {}
@@ -257,6 +262,10 @@ class SrcBuilder:
                         elif isinstance(t, ast.Subscript):
                             if isinstance(t.value, ast.Name) and t.value.id in tracked:
                                 tracked |= names_strpos(t.slice)
+                        elif isinstance(t, ast.Attribute):
+                            # obj.attr = value on a tracked object (e.g. b.__name__ = f"...")
+                            if isinstance(t.value, ast.Name) and t.value.id in tracked:
+                                tracked |= names_strpos(st.value)
                         elif _target_names(t) & tracked:
                             tracked |= names_strpos(st.value)
                 elif isinstance(st, ast.AugAssign):
@@ -298,8 +307,8 @@ class SrcBuilder:
                 elif isinstance(f, ast.Attribute) and isinstance(f.value, ast.Name) and f.value.id in self.tracked \
                         and f.attr in _MUTATORS:
                     r = True
-            elif isinstance(n, ast.Subscript) and isinstance(n.ctx, ast.Store) and isinstance(n.value, ast.Name) \
-                    and n.value.id in self.tracked:
+            elif isinstance(n, (ast.Subscript, ast.Attribute)) and isinstance(n.ctx, ast.Store) \
+                    and isinstance(n.value, ast.Name) and n.value.id in self.tracked:
                 r = True
             if r:
                 break
@@ -335,11 +344,16 @@ class SrcBuilder:
                 out.append(e)
         return out
 
-    def run_all(self):
-        """emits of the default plan (every symbolic loop once) and of each plan that doubles one loop"""
+    def run_all(self, triple=None):
+        """emits of the default plan (every symbolic loop once), of each plan that doubles one loop and -- for the
+        loops selected by `triple(loop node)` -- of the plan that runs that loop three times"""
+        self.run_plan({})                 # discovery pass: which loops iterate which symbolic containers
         emits = list(self.run_plan({}))
         for lid in list(self.symloops):
             emits.extend(self.run_plan({lid: 2}))
+        for lid, node in list(self.symloops.items()):
+            if triple is not None and triple(node):
+                emits.extend(self.run_plan({lid: 3}))
         seen, uniq = set(), []
         for e in emits:
             k = (e.src, keyof(e.globals) if e.globals is not None else None, id(e.call), e.reuse, e.rewritten)
@@ -483,6 +497,7 @@ class SrcBuilder:
             return list(it)
         if isinstance(it, Sym):
             self.symloops.setdefault(id(node), node)
+            self.loop_container[id(node)] = it.key[1] if it.key[0] == 'enumerate' else it.key
             n = self.plan.get(id(node), 1)
             if it.key[0] == 'enumerate':
                 inner, start = it.key[1], it.key[2]
@@ -532,13 +547,18 @@ class SrcBuilder:
             base = self.ev(t.value, st)
             idx = self.ev(t.slice, st)
             if isinstance(base, dict):
-                base[self.dkey(idx)] = v
+                k = self.dkey(idx)
+                if isinstance(base, TDict) and k in base and keyof(base[k]) != keyof(v):
+                    base.clobbered[k] = base.clobbered.get(k, 0) + 1
+                base[k] = v
                 if isinstance(base, TDict):
-                    base.wrote(self.dkey(idx))
+                    base.wrote(k)
             elif isinstance(base, list) and isinstance(idx, int) and -len(base) <= idx < len(base):
                 base[idx] = v
         elif isinstance(t, ast.Attribute):
-            pass
+            base = self.ev(t.value, st)
+            if isinstance(base, Sym):
+                st.attrs[(base.key, t.attr)] = v
         else:
             raise AnalysisError(f"assignment target outside the source-building domain: {norm(t)}")
 
@@ -647,6 +667,8 @@ class SrcBuilder:
         if isinstance(b, FuncVal) and e.attr == '__name__':
             return b.node.name
         if isinstance(b, Sym):
+            if (b.key, e.attr) in st.attrs:
+                return st.attrs[(b.key, e.attr)]
             return Sym(('attr', b.key, e.attr))
         return Sym(('attr', keyof(b), e.attr))
 
@@ -771,10 +793,14 @@ class SrcBuilder:
         it = self.ev(g.iter, st)
         if isinstance(it, Sym):
             inner = it.key
+            base = inner[1] if inner[0] == 'enumerate' else inner
+            # a comprehension over a container that a statement loop also iterates is unrolled as often as that loop
+            same = [lid for lid, ck in self.loop_container.items() if ck == base]
+            cnt = self.plan.get(same[0], 1) if same else 2
             if inner[0] == 'enumerate':
-                elems = [(inner[2] + k, Sym(('elem', inner[1], k))) for k in range(2)]
+                elems = [(inner[2] + k, Sym(('elem', inner[1], k))) for k in range(cnt)]
             else:
-                elems = [Sym(('elem', inner, k)) for k in range(2)]
+                elems = [Sym(('elem', inner, k)) for k in range(cnt)]
         else:
             elems = self._elements(it, e)
         out = []
@@ -1036,17 +1062,17 @@ class SrcBuilder:
         if not isinstance(src, str):
             raise AnalysisError(f"source handed to exec is not a statically known template: {norm(call.args[0])}")
         g = self.ev(call.args[1], st) if len(call.args) > 1 else None
-        reuse, rewritten = 1, ()
+        reuse, rewritten, clobbered = 1, (), {}
         if isinstance(g, TDict):
             g.uses += 1
-            reuse, rewritten = g.uses, sorted(g.rewritten)
+            reuse, rewritten, clobbered = g.uses, sorted(g.rewritten), dict(g.clobbered)
         if isinstance(g, dict):
             g = dict(g)
         func = call
         while func is not None and not isinstance(func, ast.FunctionDef):
             func = getattr(func, '_parent', None)
         st.emits.append(Emit(textwrap.dedent(src) if dedent else src, src, g, call, func,
-                             list(st.choices), dict(self.plan), reuse, rewritten))
+                             list(st.choices), dict(self.plan), reuse, rewritten, clobbered))
         return None
 
 
